@@ -16,12 +16,22 @@ Labelled(fr) == LET lo == FMin(fr)  hi == FMax(fr)  a == fr.align  top == P2(fr.
        <<"max-a", hi - a>>, <<"max-1", hi - 1>>, <<"max", hi>>, <<"max+1", hi + 1>>, <<"max+a", hi + a>>,
        <<"half-a", half - a>>, <<"half", half>>, <<"half+a", half + a>>,
        <<"top-a", top - a>>, <<"top-1", top - 1>>, <<"top", top>>, <<"top+a", top + a>>,
-       <<"2top-a", 2 * top - a>>, <<"-top", -top>> >>
+       <<"2top-a", 2 * top - a>>, <<"-top", -top>>, <<"-top-a", -top - a>>, <<"-2top", -2 * top>> >>
+\* why a value is not representable: misaligned, reserved zero, or outside the range -- "lo" / "hi": still
+\* inside [-2^bits, 2^bits) (the values a sign-less bits-wide field helper lets through), "ll" / "hh": beyond
+Category(fr, v) == IF Representable(fr, v) THEN "in"
+                   ELSE IF v % fr.align # 0 THEN "mis"
+                   ELSE IF v < -P2(fr.bits) THEN "ll"
+                   ELSE IF v < FMin(fr) THEN "lo"
+                   ELSE IF v >= P2(fr.bits) THEN "hh"
+                   ELSE IF v > FMax(fr) THEN "hi"
+                   ELSE "nz"
 Row(m) == LET fr == SurfaceRange(m)  lab == Labelled(fr) IN
     [mn |-> m, kind |-> fr.kind, bits |-> fr.bits, align |-> fr.align, nz |-> fr.nz,
      vals |-> IF fr.kind = "n" THEN << >>
               ELSE [k \in 1..Len(lab) |->
-                       [label |-> lab[k][1], v |-> lab[k][2], inside |-> Representable(fr, lab[k][2])]]]
+                       [label |-> lab[k][1], v |-> lab[k][2], inside |-> Representable(fr, lab[k][2]),
+                        cat |-> Category(fr, lab[k][2])]]]
 Table == {Row(m) : m \in Surface}
 WriteTable == JsonSerialize(IOEnv.OUT_FILE, SetToSeq(Table))
 =============================================================================
